@@ -123,6 +123,11 @@ func EvSendFailingWrite(k int) *Event {
 	return &Event{K: "send", Name: fmt.Sprintf("send(D, store write or statement %d fails)", k), Send: []fixscan.Field{{11, "ID"}, {55, "X"}}, FailWrite: k}
 }
 
+// EvSendSame: the application reuses the Message object of its previous send.
+func EvSendSame() *Event {
+	return &Event{K: "send", Name: "send(D, same Message object again)", Send: []fixscan.Field{{11, "OID"}, {55, "X"}}, SendSame: true}
+}
+
 func EvRestart() *Event { return &Event{K: "restart", Name: "restart"} }
 
 func EvTick() *Event { return &Event{K: "tick", Name: "tick"} }
